@@ -51,9 +51,13 @@ def special_bytes(rng, dt, n):
     return np.array(pats, dtype=base).tobytes()
 
 
-def arr_recipe(rng, shape, dt, layout, special):
+def arr_recipe(rng, shape, dt, layout, special, pattern=None):
     n = int(np.prod(shape)) if len(shape) else 1
-    raw = special_bytes(rng, dt, n) if special else bytes(rng.randrange(256) for _ in range(n * np.dtype(dt).itemsize))
+    if pattern in ("ones", "zeros"):
+        # values that coincide with dataclass defaults / fill values must survive as well
+        raw = (np.ones(n, dtype=np.dtype(dt)) if pattern == "ones" else np.zeros(n, dtype=np.dtype(dt))).tobytes()
+    else:
+        raw = special_bytes(rng, dt, n) if special else bytes(rng.randrange(256) for _ in range(n * np.dtype(dt).itemsize))
     if np.dtype(dt).kind == "b":
         raw = bytes(b & 1 for b in raw)
     if layout == "bcast" and n:
@@ -105,11 +109,18 @@ def run(ctx):
             special = rng.random() < 0.6
             shapes = fields_with_shapes(rng, kind, rank)
             kw = []
+            pattern = rng.choice([None, None, None, "ones", "zeros"])
+            ctx.count("pattern_%s" % pattern)
             for f, sh in shapes.items():
                 d = dt
                 if kind == "CubaLIF" and np.dtype(dt).kind not in "fc":
                     d = "<f8" if f == "v_threshold" else dt
-                kw.append([f, arr_recipe(rng, sh, d, layout if len(sh) >= 1 else None, special)])
+                kw.append([f, arr_recipe(rng, sh, d, layout if len(sh) >= 1 else None, special, pattern)])
+            if kind == "CubaLIF" and rng.random() < 0.6:
+                # an explicit input weight, in a dtype of its own, sometimes equal to the default value 1.0
+                wd = rng.choice(["<f8", "<f4", "<f2", "<c8", "<i8"])
+                wsh = list(shapes["v_threshold"])
+                kw.append(["w_in", arr_recipe(rng, wsh, wd, None, False, rng.choice(["ones", "ones", None]))])
             if kind == "Conv1d":
                 kw += [["input_shape", None], ["stride", gen.pyint(1)], ["padding", gen.pyint(0)], ["dilation", gen.pyint(1)], ["groups", gen.pyint(1)]]
             if kind == "Conv2d":
